@@ -24,6 +24,16 @@ def corpus():
             c1 = g.Cfg(crit="s5", naming=naming, append=app)
             out.append("flw %d 0 ; B:%s W:%s W:%s S SN K:2 B:%s W:%s T W:%s S SN" % (
                 g.T0, c1.token(), g.hx(b"A0\n"), g.hx(b"B1bbbbbb\n"), c1.token(), g.hx(b"C2\n"), g.hx(b"D3\n")))
+    # known finding Q9 (recorded in known_findings.jsonl): append restart of a direct time-stamp naming with restart siblings
+    c = g.Cfg(crit="s25", naming="tsd", append=True)
+    out.append("flw %d 0 ; B:%s W:%s T W:%s W:%s S SN K:5 B:%s W:%s S SN" % (
+        g.T0 - 1, c.token(), g.hx(b"A0\n"), g.hx(b"B1\n"), g.hx(b"C2\n"), c.token(), g.hx(b"F5\n")))
+    # fixed defects, kept as regression cases: same-second restart without append; compressed-only family
+    c = g.Cfg(crit="s25", naming="tsd")
+    out.append("flw %d 0 ; B:%s W:%s S SN B:%s W:%s S SN" % (g.T0, c.token(), g.hx(b"A0\n"), c.token(), g.hx(b"B1\n")))
+    c = g.Cfg(crit="s5", naming="num")
+    out.append("flw %d 0 ; XC:%s:1:%s SN B:%s W:%s W:%s W:%s S SN" % (
+        g.T0, g.hx(c.name(b"r00007") + b".gz"), g.hx(b"old7\n"), c.token(), g.hx(b"A0aaaaaa\n"), g.hx(b"B1\n"), g.hx(b"C2\n")))
     return out
 
 
@@ -39,12 +49,11 @@ def search(rng, tier, disagreeing):
 def classify(body, impl, verdict):
     toks = body.split(" ; ", 1)[1].split(" ")
     cfgs = [t[2:].split(",") for t in toks if t.startswith("B:")]
-    naming = cfgs[0][7].split(".")[0]
-    if any(t.startswith("XC:") and t.split(":")[2] == "1" for t in toks) and naming in ("num", "numd"):
-        return "numbers-restart-at-compressed-only"
-    direct_ts = naming == "tsd" or (naming == "cu" and cfgs[0][7].split(".")[1] == "~")
-    if direct_ts and len(cfgs) > 1:
-        return "direct-timestamps-restart"
+    naming = cfgs[0][7].split(".")
+    direct_ts = naming[0] == "tsd" or (naming[0] == "cu" and naming[1] == "~")
+    # Q9: a restart with append continues the base file of the newest time stamp although .restart- siblings are newer
+    if direct_ts and any(c[4] == "1" for c in cfgs[1:]) and "2e726573746172742d" in impl:
+        return "direct-timestamps-append-onto-base-with-restart-siblings"
     return None
 
 
